@@ -86,6 +86,7 @@ def run_reader_check(prop, tier):
         return res
 
     sets = []
+    proofs = []
     if prop == "C07":
         mc("ReaderMC", "ReaderMC_subsets_mc.cfg")
         p, _ = gen_behaviours("ReaderMC_subsets.cfg", "reader_subsets")
@@ -109,6 +110,14 @@ def run_reader_check(prop, tier):
     else:
         mc("ReaderMC", "ReaderMC_%s.cfg" % tier)
         mc("LocalMC", "LocalMC_mc.cfg")
+        # unbounded: the integer core of the range request (ResumeInd.tla, same fields and steps as Reader.tla's rq) - the resume / retry-budget
+        # invariant is inductive (Apalache), the variant that restarts a failed run from its beginning is rejected, and TLAPS proves Spec => []Safety
+        proofs.append(apalache_inductive("ResumeInd", inv="IndInv", cinit="ConstInit", cinit_neg="ConstInitNeg", safety="Safety"))
+        proofs.append(tlaps_prove("ResumeIndProof", ["ResumeInd"]))
+        for pr in proofs:
+            log("proof %s %s: %s" % (pr["tool"], pr["module"], "ok" if pr["ok"] else "FAILED"))
+            if not pr["ok"]:
+                raise ToolError("unbounded proof failed: %s" % json.dumps(pr)[:1500])
         p, _ = gen_behaviours("ReaderMC_gen_%s.cfg" % tier, "reader_gen_" + tier)
         sets.append(("faults", p, 0))
         sets.append(("faults_frag1", p, 1))
@@ -173,7 +182,7 @@ def run_reader_check(prop, tier):
     shutil.rmtree(workdir, ignore_errors=True)
     out.coverage = {"states": states, "transitions": trans, "traces_validated_against_impl": total, "l2_process_runs": l2_runs,
                     "trace_events_validated": tv["events"], "behaviours_accepted": tv["scenarios_ok"], "verdicts_all_properties": counts,
-                    "model_checking_runs": mc_runs, "exhaustive": True,
+                    "model_checking_runs": mc_runs, "unbounded_proofs": proofs, "exhaustive": True,
                     "rule": "TLC enumerates every behaviour of the bounded Reader model (chunk list x retry budget x server script: drop / full / cut after every byte offset / clean short body); each is replayed against the real reader with a scripted TCP server; server log drives Reader.tla, consumer log is compared with what the model delivered",
                     "samples": samples}
     out.assumptions = ["a cut is FIN after k body bytes of a longer Content-Length, so the client has received exactly k bytes when it sees the error (D9)",
